@@ -1,14 +1,117 @@
 /-
-  Driver.C07 — line protocol front end for property C07 (stub: not built yet).
+  Driver.C07 — line protocol for determinant and inverse.
+
+    @ <fp|rat> <a>:<rows>,<b>:<cols> <entries>    the logical matrix shown by the input (row-major);
+                                                  a, b are the tensor dimension names
+    mdet via=…      linear_algebra::determinant / Matrix::determinant       → some(v) | none
+    minv via=…      linear_algebra::inverse / Matrix::inverse               → some(RxC;e,…) | none
+    tdet via=…      determinant_tensor / Tensor / TensorView ::determinant  → some(v) | none
+    tinv via=…      inverse_tensor / Tensor / TensorView ::inverse          → some(a:R,b:C;e,…) | none
+    mcheck via=…    A·A⁻¹ and A⁻¹·A for the Matrix inverse                  → none | some(id,id) | some(<p>|<q>)
+    tcheck via=…    the same for the tensor inverse
+
+  `via=` (which Rust entry point / ownership form / view adaptor presents the matrix) is ignored:
+  every variant must give the model's single answer.  Values are exact field elements
+  (`Fp`: representative in [0,p); `Rat`: `n` or `n/d`).
 -/
+import EasyMl.Model.Det
 import Driver.Parse
 
 namespace Driver.C07
+open EasyMl EasyMl.Det Driver
 
-abbrev State := Unit
+inductive Elems where
+  | fp (l : List Fp)
+  | rat (l : List Rat)
 
-def init : State := ()
+structure State where
+  names : String × String := ("", "")
+  rows : Nat := 0
+  cols : Nat := 0
+  elems : Elems := .fp []
 
-def step (s : State) (_toks : List String) : State × String := (s, "unimplemented")
+def init : State := {}
+
+def parseRat (s : String) : Option Rat :=
+  match s.splitOn "/" with
+  | [n] => n.toInt?.map fun i => (i : Rat)
+  | [n, d] => match n.toInt?, d.toNat? with
+    | some i, some k => some (mkRat i k)
+    | _, _ => none
+  | _ => none
+
+def parseFp (s : String) : Option Fp := s.toInt?.map Fp.ofInt
+
+section Generic
+variable {α : Type} [Add α] [Sub α] [Mul α] [Div α] [Zero α] [One α] [NumOrd α]
+
+def showVals (sh : α → String) (l : List α) : String := ",".intercalate (l.map sh)
+
+def matOf (rows cols : Nat) (l : List α) : EasyMl.Matrix α := ⟨l, rows, cols⟩
+
+def viewOf (rows cols : Nat) (l : List α) : View α :=
+  ⟨rows, cols, fun r c => l.getD (c + r * cols) 0⟩
+
+/-- plain row-by-column product of two `n × n` row-major buffers (driver only) -/
+def matMul (n : Nat) (x y : List α) : List α :=
+  (indexPairs n n).map fun (i, j) =>
+    (List.range n).foldl (fun acc k => acc + x.getD (k + i * n) 0 * y.getD (j + k * n) 0) 0
+
+def isIdentity (n : Nat) (x : List α) : Bool :=
+  x.length == n * n &&
+  (indexPairs n n).all fun (i, j) =>
+    NumOrd.eq (x.getD (j + i * n) 0) (if i == j then (1 : α) else 0)
+
+def checkStr (sh : α → String) (n : Nat) (a inv : List α) : String :=
+  let p := matMul n a inv
+  let q := matMul n inv a
+  if isIdentity n p && isIdentity n q then "some(id,id)"
+  else s!"some({showVals sh p}|{showVals sh q})"
+
+def answer (sh : α → String) (names : String × String) (rows cols : Nat) (l : List α)
+    (op : String) : String :=
+  match op with
+  | "mdet" => match determinant (matOf rows cols l) with
+    | some d => s!"some({sh d})" | none => "none"
+  | "tdet" => match determinantTensor (viewOf rows cols l) with
+    | some d => s!"some({sh d})" | none => "none"
+  | "minv" => showOutcome (fun
+      | some (m : EasyMl.Matrix α) => s!"some({m.rows}x{m.columns};{showVals sh m.data})"
+      | none => "none") (inverse (matOf rows cols l))
+  | "tinv" => showOutcome (fun
+      | some (t : Tensor String α) => s!"some({showShape t.shape};{showVals sh t.data})"
+      | none => "none") (inverseTensor names (viewOf rows cols l))
+  | "mcheck" => showOutcome (fun
+      | some (m : EasyMl.Matrix α) => checkStr sh rows l m.data
+      | none => "none") (inverse (matOf rows cols l))
+  | "tcheck" => showOutcome (fun
+      | some (t : Tensor String α) => checkStr sh rows l t.data
+      | none => "none") (inverseTensor names (viewOf rows cols l))
+  | _ => "bad-op"
+
+end Generic
+
+def step (s : State) (toks : List String) : State × String :=
+  match toks with
+  | ["@", ty, shapeS, entriesS] =>
+    match parseShape shapeS with
+    | some [(a, r), (b, c)] =>
+      let ents := splitComma entriesS
+      if ents.length ≠ r * c then (s, "bad-op") else
+      if ty = "fp" then
+        match ents.mapM parseFp with
+        | some l => ({ names := (a, b), rows := r, cols := c, elems := .fp l }, "ok")
+        | none => (s, "bad-op")
+      else if ty = "rat" then
+        match ents.mapM parseRat with
+        | some l => ({ names := (a, b), rows := r, cols := c, elems := .rat l }, "ok")
+        | none => (s, "bad-op")
+      else (s, "bad-op")
+    | _ => (s, "bad-op")
+  | op :: _ =>
+    match s.elems with
+    | .fp l => (s, answer (fun (x : Fp) => toString x) s.names s.rows s.cols l op)
+    | .rat l => (s, answer showRat s.names s.rows s.cols l op)
+  | _ => (s, "bad-op")
 
 end Driver.C07
